@@ -1045,6 +1045,8 @@ func (v *Version) UnmarshalBinary(data []byte) error {
 		return errors.New("lorawan: 1 byte of data is expected")
 	}
 	v.Minor = data[0]
+	// bits 7..4 are RFU and must be ignored
+	v.Minor &= 0x0f
 	return nil
 }
 
